@@ -61,8 +61,8 @@ theorem sortBy_key_sorted (k : Name → Nat) (l : List Name) :
       simp only [insertBy]
       have hy := List.pairwise_cons.mp hl
       split
-      · rename_i hxy
-        have hxy' : k y < k x := by simpa using hxy
+      · rename_i hyx
+        have hyx' : k y < k x := by simpa using hyx
         refine List.pairwise_cons.mpr ⟨?_, ih hy.2⟩
         intro b hb
         have hmem : b = x ∨ b ∈ ys := by
@@ -71,8 +71,8 @@ theorem sortBy_key_sorted (k : Name → Nat) (l : List Name) :
         rcases hmem with rfl | hb
         · omega
         · exact hy.1 b hb
-      · rename_i hxy
-        have hxy' : ¬ k y < k x := by simpa using hxy
+      · rename_i hyx
+        have hyx' : ¬ k y < k x := by simpa using hyx
         refine List.pairwise_cons.mpr ⟨?_, hl⟩
         intro b hb
         rcases List.mem_cons.mp hb with rfl | hb
